@@ -408,6 +408,11 @@ def body(chk, db, cfgname):
             # before the loop (e.g. for Tolerance <= 0) leaves the flags of an earlier, coarser truncation in place
             from checks.lehmann import early_exits_before
             ee = early_exits_before(g, jj)
+            # (a return taken when there is no block at all skips nothing)
+            def _no_blocks(r_):
+                fa0 = guard_facts(g, gctx).get(g.cfg.pos1(r_), frozenset())
+                return any((x[0] == "true" and x[1][0] == "mcall" and x[1][1].split("::")[-1] == "empty" and x[1][2] == fld(DM + "::parts")) for x in fa0)
+            ee = [r_ for r_ in ee if not _no_blocks(r_)]
             if ee:
                 fa_ = guard_facts(g, gctx).get(g.cfg.pos1(ee[0]), frozenset())
                 verdict, why = "bad", "the function returns before the loop over the blocks when {%s}: the retention flags then keep the values of an earlier truncation (truncateBlocks(0) no longer restores the untruncated state)" % (
